@@ -333,6 +333,12 @@ func (tx *FnTx) call(x *ssa.Call, st *State) *State {
 	return tx.callCommon(&x.Call, x, st)
 }
 
+// mustPanicFns: standard-library functions that panic instead of returning an error.
+var mustPanicFns = map[string]bool{
+	"regexp.MustCompile": true, "regexp.MustCompilePOSIX": true, "text/template.Must": true, "html/template.Must": true,
+	"strings.Repeat": false,
+}
+
 func (tx *FnTx) callCommon(cc *ssa.CallCommon, v ssa.Value, st *State) *State {
 	sig := cc.Signature()
 	// 1. builtins
@@ -393,6 +399,21 @@ func (tx *FnTx) callCommon(cc *ssa.CallCommon, v ssa.Value, st *State) *State {
 	desc = key
 	tx.curCallArgs = args
 	tx.checkCallAsserts(desc, "before", st, st, nil)
+	// library functions whose documented behaviour is to panic on bad input: with a non-constant argument the call is an
+	// explicit panic site (kind "panic") unless it is unreachable
+	if mustPanicFns[key] && tx.c != nil && tx.c.NoPanic {
+		allConst := true
+		for _, a := range cc.Args {
+			if _, ok := a.(*ssa.Const); !ok {
+				allConst = false
+			}
+		}
+		if !allConst {
+			k := tx.nsafe["panic"]
+			tx.nsafe["panic"] = k + 1
+			tx.oblige("safe", fmt.Sprintf("panic@%d", k), "false", tx.curReach, key+" panics on invalid input and is called with a computed argument")
+		}
+	}
 	// 3. modelled library functions
 	if post, ok := tx.modelled(key, callee, cc, v, args, st); ok {
 		return tx.afterCall(desc, post, st, nil)
